@@ -405,8 +405,46 @@ def corner_tables_case(ctx, rng):
                       {"stage": kind, "fmt": reported, "before": base[:120], "after": after_setter[:120]}, case)
 
 
+def grown_table_case(ctx, rng):
+    """a table with record limits over a list of the caller that is still short when the table is printed first (nothing
+    is hidden) and has grown when it is printed again (some records are hidden now): the format reported after that
+    print carries the limits. Fixed column widths: what the first print found out about widths plays no role"""
+    ctx.evaluated()
+    n0 = rng.randint(0, 3)
+    n1 = n0 + rng.randint(3, 8)
+    limits = rng.choice([(1, 1), (2, 0), (0, 2), (1, 2)])
+    recs_all = [(k, "b%d" % k, rng.choice([1, 2, 30]), "d%d" % k) for k in range(n1)]
+    recs = recs_all[:n0]
+    fmt = rng.choice(["a:4,b:4", "b:5,st/val:3,a:2", "a:3"]) + ";%d:%d" % limits
+    case = {"grown_table": True, "fmt": fmt, "before": n0, "after": n1}
+    try:
+        # (the footer is given: the default one counts the records once, when the table is made)
+        t = PPTable(recs, fields=T.FIELDS, fmt=fmt, fields_types=T.mk_field_types(), footer="end")
+        T.render(t)
+        recs.extend(recs_all[n0:])
+        shown = T.render(t)
+        reported = str(t.fmt)
+        rebuilt = T.render(PPTable(list(recs), fields=T.FIELDS, fmt=reported, fields_types=T.mk_field_types(),
+                                   footer="end"))
+        t.fmt = reported
+        again = T.render(t)
+    except Exception as err:
+        ctx.violation("table-operation-raises", {"stage": "grown table", "type": type(err).__name__,
+                                                 "msg": str(err)[:200]}, case)
+        return
+    ctx.count("tables_printed_again_after_their_record_list_had_grown")
+    if rebuilt != shown:
+        ctx.violation("constructor-with-reported-format-renders-differently",
+                      {"stage": "grown table", "fmt": reported, "table": shown[:300], "rebuilt": rebuilt[:300]}, case)
+    elif again != shown:
+        ctx.violation("setter-with-reported-format-changes-rendering",
+                      {"stage": "grown table", "fmt": reported, "before": shown[:300], "after": again[:300]}, case)
+
+
 def run_shard(ctx):
     for i in range(ctx.cases):
+        if i % 5 == 1:
+            grown_table_case(ctx, ctx.rng(i, "grown"))
         if i % 5 == 2:
             corner_tables_case(ctx, ctx.rng(i, "corner"))
         if i % 5 == 4:
@@ -421,6 +459,11 @@ def run_shard(ctx):
 
 
 def replay(ctx, case):
+    if case.get("grown_table"):
+        import random
+        for k in range(200):
+            grown_table_case(ctx, random.Random(k))
+        return
     if case.get("corner_table"):
         import random
         for k in range(100):
